@@ -299,7 +299,10 @@ class Infer:
             if ci is None:
                 raise AnalysisError(f"typing table: class {cname} not found")
             if not self._class_has_attr(ci, attr):
-                raise AnalysisError(f"typing table: {cname}.{attr} is no longer defined by the class")
+                # the hint is moot (the attribute is produced some other way now): receivers typed through it stay
+                # untyped, and the rules that needed them fall below their floors or decide by evaluation
+                self.dropped_hints = getattr(self, "dropped_hints", []) + [f"{cname}.{attr}"]
+                continue
             self.attr_table[key] = t
         # unique attribute ownership
         owners: Dict[str, Set[str]] = {}
